@@ -41,8 +41,35 @@ def _pexpr(n):
     raise ExtractError(f'probability conversion: unsupported expression {unparse(n)[:80]}')
 
 
-def _gate(src, cls, deliver_calls):
-    """ The `if <x> in self.timepoints` of cls.step; every delivering call must be inside its body """
+def _counter(fn, node):
+    """ Which step counter an expression denotes: 'simTi' (sim.ti), 'ownTi' (self.ti), 'timeObj' (sim.t); local names are
+        resolved through their single assignment in the function """
+    txt = unparse(node)
+    if isinstance(node, ast.Name):
+        a = [n for n in ast.walk(fn) if isinstance(n, ast.Assign) and len(n.targets) == 1 and unparse(n.targets[0]) == txt]
+        if len(a) != 1:
+            raise ExtractError(f'{fn.name}: cannot resolve the local name `{txt}` used as a step index')
+        return _counter(fn, a[0].value)
+    if txt in ('sim.ti', 'self.sim.ti'): return 'simTi'
+    if txt in ('self.ti', 'self.t.ti'): return 'ownTi'
+    if txt in ('sim.t', 'self.sim.t', 'self.t'): return 'timeObj'
+    raise ExtractError(f'{fn.name}: unsupported step index expression `{txt}`')
+
+
+def _lookup_counter(fn):
+    """ the counter used in `sc.findinds(self.timepoints, <x>)[0]` (the coverage look-up), or None if there is none """
+    kinds = []
+    for n in ast.walk(fn):
+        if isinstance(n, ast.Call) and unparse(n.func) in ('sc.findinds', 'sc.findfirst') and len(n.args) >= 2 and unparse(n.args[0]) == 'self.timepoints':
+            kinds.append(_counter(fn, n.args[1]))
+    if len(set(kinds)) > 1:
+        raise ExtractError(f'{fn.name}: coverage look-ups use different step counters {kinds}')
+    return kinds[0] if kinds else None
+
+
+def _gate(src, cls, deliver_calls, lookup_fns):
+    """ The `if <x> in self.timepoints` of cls.step; every delivering call must be inside its body; the coverage
+        look-up must use the same counter as the gate """
     fn = src.func(REL, 'step', cls)
     gates = [n for n in ast.walk(fn) if isinstance(n, ast.If) and isinstance(n.test, ast.Compare)
              and len(n.test.ops) == 1 and isinstance(n.test.ops[0], ast.In) and unparse(n.test.comparators[0]) == 'self.timepoints']
@@ -51,13 +78,7 @@ def _gate(src, cls, deliver_calls):
     g = gates[0]
     if g.orelse:
         raise ExtractError(f'{cls}.step: the timepoints gate has an else branch')
-    left = unparse(g.test.left)
-    if left in ('sim.ti', 'self.sim.ti', 'self.ti'):
-        on_ti = True
-    elif left in ('sim.t', 'self.sim.t', 'self.t'):
-        on_ti = False
-    else:
-        raise ExtractError(f'{cls}.step: unsupported gate expression `{left} in self.timepoints`')
+    kind = _counter(fn, g.test.left)
     inside = {id(n) for st in g.body for n in ast.walk(st)}
     found = 0
     for n in ast.walk(fn):
@@ -67,7 +88,13 @@ def _gate(src, cls, deliver_calls):
                 raise ExtractError(f'{cls}.step: `{unparse(n.func)}` is called outside the timepoints gate')
     if not found:
         raise ExtractError(f'{cls}.step: no delivering call ({deliver_calls}) found')
-    return on_ti, unparse(g.test)
+    for c2, f2 in lookup_fns:
+        lk = _lookup_counter(src.func(REL, f2, c2))
+        if lk is None:
+            raise ExtractError(f'{c2}.{f2}: coverage look-up `sc.findinds(self.timepoints, <step>)` not found')
+        if kind != 'timeObj' and lk != kind:
+            raise ExtractError(f'{cls}.step gates on {kind} but {c2}.{f2} looks the coverage up with {lk}')
+    return kind, unparse(g.test)
 
 
 @generator('DeliveryConsts', [REL])
@@ -125,9 +152,9 @@ def gen(src):
     _DT[0] = dt_name
     conv_lean = _pexpr(conv)
     # ---- gates ----
-    g_scr, s_scr = _gate(src, 'BaseScreening', ('self.deliver',))
-    g_tri, s_tri = _gate(src, 'BaseTriage', ('self.deliver',))
-    g_vx, s_vx = _gate(src, 'BaseVaccination', ('self.product.administer', 'self.coverage_dist.filter'))
+    g_scr, s_scr = _gate(src, 'BaseScreening', ('self.deliver',), [('BaseTest', 'deliver')])
+    g_tri, s_tri = _gate(src, 'BaseTriage', ('self.deliver',), [('BaseTest', 'deliver')])
+    g_vx, s_vx = _gate(src, 'BaseVaccination', ('self.product.administer', 'self.coverage_dist.filter'), [('BaseVaccination', 'step')])
     # ---- capacity slice ----
     gc = src.func(REL, 'get_candidates', 'treat_num')
     slices = [n for n in ast.walk(gc) if isinstance(n, ast.Subscript) and unparse(n.value) == 'self.queue' and isinstance(n.slice, ast.Slice)]
@@ -168,15 +195,19 @@ inductive PExpr
   | add (a b : PExpr) | sub (a b : PExpr) | mul (a b : PExpr) | div (a b : PExpr) | pow (a b : PExpr)
 /-- `if self.annual_prob: self.prob = {unparse(conv)}` -/
 def probConversion : PExpr := {conv_lean}
-/-- step gates: true = `sim.ti in self.timepoints`, false = `sim.t in self.timepoints` (a Time object: never true) -/
-def gateScreeningOnTi : Bool := {str(g_scr).lower()}
-def gateTriageOnTi : Bool := {str(g_tri).lower()}
-def gateVaccinationOnTi : Bool := {str(g_vx).lower()}
+/-- which step counter a `step` tests against `self.timepoints` (positions on the SIM's time vector) and looks the coverage up with:
+    `sim.ti`, the module's own `self.ti`, or the Time object `sim.t` (never an element) -/
+inductive GateKind
+  | simTi | ownTi | timeObj
+  deriving DecidableEq, Repr
+def gateScreening : GateKind := .{g_scr}
+def gateTriage : GateKind := .{g_tri}
+def gateVaccination : GateKind := .{g_vx}
 /-- `treat_num.get_candidates`: `self.queue[:self.max_capacity + capSliceOffset]` -/
 def capSliceOffset : Int := {offs[0]}
 end StarsimModel.Gen
 '''
     facts = dict(adj_threshold=str(thr), adj_fine_sub=int(fine), adj_coarse=int(coarse), vec_per_timepoint=vec_per_tp, yearvec_expr=ytxt, prob_conversion=unparse(conv),
                  gate_screening=s_scr, gate_triage=s_tri, gate_vaccination=s_vx,
-                 gate_screening_on_ti=g_scr, gate_triage_on_ti=g_tri, gate_vaccination_on_ti=g_vx, cap_slice_offset=offs[0])
+                 gate_screening_kind=g_scr, gate_triage_kind=g_tri, gate_vaccination_kind=g_vx, cap_slice_offset=offs[0])
     return body, facts
